@@ -118,7 +118,9 @@ def links(evs: List[Ev]) -> Dict[int, int]:
     return out
 
 
-def causal(evs: List[Ev]) -> Optional[str]:
+def causal(evs: List[Ev], zero_len_shared_start_ok: bool = False) -> Optional[str]:
+    """zero_len_shared_start_ok: a zero-duration activity may start in the instant the next activity of its stream starts (they do not
+    overlap; the zero-duration one comes first)."""
     byid = {e.id: e for e in evs}
     lk = links(evs)
     streams: Dict[int, List[Ev]] = {}
@@ -132,7 +134,7 @@ def causal(evs: List[Ev]) -> Optional[str]:
     for s, ks in streams.items():
         ks.sort(key=lambda e: (e.ts, e.end))
         for a, b in zip(ks, ks[1:]):
-            if b.ts == a.ts:
+            if b.ts == a.ts and not (zero_len_shared_start_ok and a.dur == 0):
                 return f"stream {s}: activities {a.id} and {b.id} share start {a.ts}"
             if b.ts < a.end:
                 return f"stream {s}: activities {a.id} and {b.id} overlap"
